@@ -14,6 +14,7 @@
   of `Row`s, one per output row.
 -/
 import CTM.Generated.StatsThresholds
+import CTM.Generated.StatsBuffers
 
 namespace CTM.Stats
 
@@ -276,6 +277,47 @@ def precompute (nClusters g : Nat) (nameToRow : List (Nat × Nat))
     match mapMExcept (processSpec nClusters g nameToRow) loads with
     | .error e => .error e
     | .ok bufs => mergeBuffers nClusters g bufs
+
+/-! ### integer width of the scratch buffers
+
+In the model the integer arrays (`n_cells`, `gt0`, `gt1`, `ge1`) are unbounded
+`Nat`.  In the code every worker writes its buffer to an HDF5 file and the
+reduction allocates its accumulators with the dtype OF THE FIRST BUFFER
+(`np.zeros(src[k].shape, dtype=src[k].dtype)`) and adds the others in place, so
+the totals are only right as long as they fit that dtype.  `precomputeW bits`
+is the writer with integer accumulators of `bits` value bits;
+`Generated.statsBufferIntBits` is the width the current source gives them. -/
+
+/-- in-place addition in an integer array of `bits` value bits -/
+def wrapNat (bits x : Nat) : Nat := x % 2 ^ bits
+
+def GStat.wrap (bits : Nat) (s : GStat) : GStat :=
+  { s with gt0 := wrapNat bits s.gt0, gt1 := wrapNat bits s.gt1, ge1 := wrapNat bits s.ge1 }
+
+/-- the integer entries of a row reduced modulo `2^bits` (the float arrays
+`sum`, `sumsq` are not affected) -/
+def Row.wrap (bits : Nat) (r : Row) : Row := ⟨wrapNat bits r.n, r.genes.map (GStat.wrap bits)⟩
+
+/-- `final_output[k] += src[k]` with accumulators of `bits` value bits -/
+def mergeBuffersW (bits nClusters g : Nat) : List Buffer → Except StatsErr Buffer
+  | [] => .error .noBuffers
+  | bs => .ok (bs.foldl (fun acc b => (bufZipAdd acc b).map (Row.wrap bits)) (zeroBuffer nClusters g))
+
+/-- the writer with integer accumulators of `bits` value bits -/
+def precomputeW (bits nClusters g : Nat) (nameToRow : List (Nat × Nat))
+    (files : List (Nat × List CellRec)) (rows nProc : Nat) : Except StatsErr Buffer :=
+  match workSplit (files.filter (fun f => wanted nameToRow f.2)) rows nProc with
+  | .error e => .error e
+  | .ok loads =>
+    match mapMExcept (processSpec nClusters g nameToRow) loads with
+    | .error e => .error e
+    | .ok bufs => mergeBuffersW bits nClusters g bufs
+
+/-- every integer entry of the arrays is below `2^bits` -/
+def fitsBits (bits : Nat) (buf : Buffer) : Bool :=
+  buf.all (fun r => decide (r.n < 2 ^ bits) &&
+    r.genes.all (fun s => decide (s.gt0 < 2 ^ bits) && decide (s.gt1 < 2 ^ bits) &&
+      decide (s.ge1 < 2 ^ bits)))
 
 /-! ### front ends: cell name → output row -/
 
